@@ -10,6 +10,7 @@
 (*   U, v    values as integers in units 1/U (dyadic grid)      nan   mask: value is NaN                        *)
 (*   WU, w   weights in units 1/WU                              wnan  mask: weight is NaN (counts as 0)         *)
 (*   x, wx   the same values / weights as fixed-point numbers (estimators only; <<>> for smoothers)             *)
+(*   wfine, ws   weights finer than the 10^-12 grid: wx[i] = k exactly, weight = k * 2^-ws, w = <<>>             *)
 (*   flag    scale_to_sd (mad, wmad)                            hasinit, init   `initial=` on the grid (bivar, mse) *)
 (*   c       shift in grid units          fn, fd  scale factor  wn, wd  smoother width wn/wd (0/0 = None)       *)
 (*   out, isnan / out2, isnan2   result(s) as fixed-point numbers (round(|x| * 10^12), any magnitude) + NaN/inf *)
@@ -32,9 +33,12 @@ Internals   == {"wing", "pad", "guess"}
 (* 400 values costs TLC 0.2 s, and every clause needs them.  MC_Stats derives x from v with Stats.FxGrid and the   *)
 (* harness compares its own encoding with that on every enumerated state.                                          *)
 Keep(r) == SelectSeq([i \in 1..Len(r.v) |-> i], LAMBDA i : ~r.nan[i])       \* NaN values are ignored ...
-Xs(r) == LET k == Keep(r) IN IF Len(k) = Len(r.v) THEN r.x ELSE [j \in 1..Len(k) |-> r.x[k[j]]]
+Xs(r) == LET k == Keep(r) IN IF Len(k) = Len(r.v) THEN r.x ELSE Force([j \in 1..Len(k) |-> r.x[k[j]]])
+(* weights: wx[i] are exact non-negative integers in ONE common unit -- 10^-12 (w[i]/WU in fixed point) or, for    *)
+(* weights finer than 12 decimals (wfine: k * 2^-ws, `w` is empty then), 2^-ws.  Every use of the weights below is *)
+(* a comparison of weight sums or a ratio, so the unit does not matter.                                            *)
 Ws(r) == LET k == Keep(r) IN                                                 \* ... together with their weights; NaN weight = 0
-         [j \in 1..Len(k) |-> IF r.wnan[k[j]] THEN ZZero ELSE r.wx[k[j]]]
+         Force([j \in 1..Len(k) |-> IF r.wnan[k[j]] THEN ZZero ELSE r.wx[k[j]]])
 Out(r) == r.out
 Out2(r) == r.out2
 InitFx(r) == FxGrid(r.init, r.U)
@@ -210,9 +214,9 @@ Premise(r) ==
          /\ r.kind = "scale" => /\ r.est \in EquivScale /\ r.fd > 0 /\ r.fn # 0
                                 /\ (r.est \in WeightedEst => r.fn > 0)    \* see Stats: set-valued weighted medians need not commute with reflection
     /\ r.est \in WeightedEst =>
-         /\ Len(r.w) = Len(r.v) /\ Len(r.wnan) = Len(r.v) /\ r.WU > 0
-         /\ \A i \in 1..Len(r.w) : r.w[i] >= 0                            \* "positive weight vectors (incl. ... zeros)"
-         /\ \E j \in 1..Len(Keep(r)) : LET i == Keep(r)[j] IN ~r.wnan[i] /\ r.w[i] > 0
+         /\ Len(r.wx) = Len(r.v) /\ Len(r.wnan) = Len(r.v)
+         /\ \A i \in 1..Len(r.wx) : ~r.wx[i].n                            \* "positive weight vectors (incl. ... zeros)"
+         /\ \E j \in 1..Len(Keep(r)) : LET i == Keep(r)[j] IN ~r.wnan[i] /\ ~ZIsZero(r.wx[i])
     /\ r.est \in Smoothers =>
          /\ N(r) >= 1 /\ r.U > 0
          /\ (r.wn = 0 /\ r.wd = 0 /\ r.est = "kaiser") \/ (ValidWidth(r) /\ WidthExact(r))
